@@ -520,6 +520,11 @@ func partB(r *vcommon.Run, client *httplib.Client) {
 					}
 				}
 				hn := c.headers[0][0]
+				for _, h := range c.headers { // the header that carried this canary
+					if strings.Contains(h[1], can) || h[1] == can {
+						hn = h[0]
+					}
+				}
 				r.Violation("request-dump-discloses|"+http.CanonicalHeaderKey(hn),
 					fmt.Sprintf("debug dump of the request contains the value of header %q (%s)", hn, c.desc),
 					map[string]any{"case": c.desc, "headers": c.headers, "method": c.method, "log_line": vcommon.Short(line, 600)})
